@@ -30,6 +30,8 @@ pub enum Variant {
     Pretty,
     ExtraSig,
     TrailingNewline,
+    /// "signed" before "signatures": same length, other bytes
+    Reordered,
 }
 
 #[derive(Clone, Debug, Serialize, Deserialize, PartialEq, Eq)]
@@ -51,15 +53,17 @@ pub struct Case {
 fn state(case: &Case, s: usize) -> forge::Built {
     let v = s as u64 + 1;
     let mut sp = Simple::basic(case.consistent);
+    // every role has its own version numbering, so that a version taken from the wrong document
+    // is visible
     sp.ts_version = v;
-    sp.snap_version = v;
-    sp.targets_version = v;
+    sp.snap_version = v + 10;
+    sp.targets_version = v + 20;
     sp.targets = vec![(format!("top{v}.txt"), format!("top {v}").into_bytes())];
     let mut d2 = DelegNode::new("d2", 5, PathSpec::Paths(vec!["d/e/*".into()]));
-    d2.version = v;
+    d2.version = v + 40;
     d2.targets = vec![(format!("d/e/f{v}.txt"), format!("deep {v}").into_bytes())];
     let mut d1 = DelegNode::new("d1", 4, PathSpec::Paths(vec!["d/*".into()]));
-    d1.version = v;
+    d1.version = v + 30;
     d1.targets = vec![(format!("d/g{v}.txt"), format!("mid {v}").into_bytes())];
     d1.children = vec![d2];
     sp.delegs = vec![d1];
@@ -99,8 +103,21 @@ fn vary(bytes: &[u8], v: Variant) -> Vec<u8> {
             b.push(b'\n');
             b
         }
+        Variant::Reordered => {
+            let d: Value = serde_json::from_slice(bytes).unwrap();
+            let mut b = Vec::new();
+            b.extend_from_slice(b"{\"signed\":");
+            b.extend_from_slice(&serde_json::to_vec(&d["signed"]).unwrap());
+            b.extend_from_slice(b",\"signatures\":");
+            b.extend_from_slice(&serde_json::to_vec(&d["signatures"]).unwrap());
+            b.push(b'}');
+            b
+        }
     }
 }
+
+/// version offsets of snapshot, targets, d1, d2 relative to the timestamp version of the state
+const OFFSET: [u64; 4] = [10, 20, 30, 40];
 
 fn file_of(b: &forge::Built, role: &str, consistent: bool, v: u64) -> Vec<u8> {
     let name = match (role, consistent) {
@@ -123,17 +140,20 @@ pub fn prop(case: &Case) -> Outcome {
     let mut served: Vec<Vec<u8>> = Vec::new();
     for (i, r) in roles.iter().enumerate() {
         let st = from[i + 1];
-        let bytes = vary(&file_of(&states[st], r, case.consistent, st as u64 + 1), case.variant[i]);
+        let bytes = vary(&file_of(&states[st], r, case.consistent, st as u64 + 1 + OFFSET[i]), case.variant[i]);
         // whatever URL the client asks for this role, it gets this file
         mem.set_meta(&format!("{r}.json"), Resp::body(bytes.clone()));
-        for v in 1..=3 {
+        for v in 1..=50 {
             mem.set_meta(&format!("{v}.{r}.json"), Resp::body(bytes.clone()));
         }
         served.push(bytes);
     }
     // oracle
     let t = from[0];
-    let orig = |r: &str| file_of(&states[t], r, case.consistent, t as u64 + 1);
+    let orig = |r: &str| {
+        let i = roles.iter().position(|x| *x == r).unwrap();
+        file_of(&states[t], r, case.consistent, t as u64 + 1 + OFFSET[i])
+    };
     let pin_ok = |hash: bool, len: bool, o: &[u8], s: &[u8]| (!hash || sha256_hex(o) == sha256_hex(s)) && (!len || s.len() <= o.len());
     let snap_ok = from[1] == t && pin_ok(case.pin_snap_hash, case.pin_snap_len, &orig("snapshot"), &served[0]);
     let targets_ok = from[2] == t && pin_ok(case.pin_targets_hash, case.pin_targets_len, &orig("targets"), &served[1]);
@@ -161,19 +181,20 @@ pub fn prop(case: &Case) -> Outcome {
         (Ok(repo), true) => {
             let v = t as u64 + 1;
             let got = (repo.timestamp().signed.version.get(), repo.snapshot().signed.version.get(), repo.targets().signed.version.get());
-            if got != (v, v, v) {
-                o.fail(format!("loaded versions {got:?}, expected all {v}"));
+            if got != (v, v + 10, v + 20) {
+                o.fail(format!("loaded versions {got:?}, expected {:?}", (v, v + 10, v + 20)));
             }
             if case.consistent {
                 let reqs = mem.meta_requests();
-                for want in [format!("{v}.snapshot.json"), format!("{v}.targets.json"), format!("{v}.d1.json"), format!("{v}.d2.json")] {
+                let wanted = [format!("{}.snapshot.json", v + 10), format!("{}.targets.json", v + 20), format!("{}.d1.json", v + 30), format!("{}.d2.json", v + 40)];
+                for want in wanted.clone() {
                     if !reqs.contains(&want) {
                         o.fail(format!("consistent snapshots: {want} (the file named by the pinning document) was not requested; requests {reqs:?}"));
                     }
                 }
                 for r in &reqs {
-                    if r.ends_with(".json") && !r.ends_with(".root.json") && r != "timestamp.json" && !r.starts_with(&format!("{v}.")) {
-                        o.fail(format!("consistent snapshots: unexpected request {r}; the pinned version is {v}"));
+                    if r.ends_with(".json") && !r.ends_with(".root.json") && r != "timestamp.json" && !wanted.contains(r) {
+                        o.fail(format!("consistent snapshots: unexpected request {r}; the pinning documents name {wanted:?}"));
                     }
                 }
             }
@@ -198,7 +219,7 @@ pub fn prop(case: &Case) -> Outcome {
 }
 
 fn variant() -> impl Strategy<Value = Variant> {
-    prop_oneof![5 => Just(Variant::Same), 1 => Just(Variant::Pretty), 1 => Just(Variant::ExtraSig), 1 => Just(Variant::TrailingNewline)]
+    prop_oneof![6 => Just(Variant::Same), 1 => Just(Variant::Pretty), 1 => Just(Variant::ExtraSig), 1 => Just(Variant::TrailingNewline), 2 => Just(Variant::Reordered)]
 }
 
 fn from_strategy() -> impl Strategy<Value = [u8; 5]> {
